@@ -1,15 +1,8 @@
 //! vcheck: property-based checks for anydb (rawdb + vecdb).
 #![allow(clippy::type_complexity)]
 
-mod common;
-mod compute;
-mod crash;
-mod props;
-mod rawmodel;
-mod sched;
-mod vecmodel;
-
-use common::runner::main_for;
+use anydb_verif::common::runner::main_for;
+use anydb_verif::{common, props};
 
 // largest single allocation request while a decoder runs (C17); a relaxed load otherwise
 #[global_allocator]
